@@ -1,5 +1,7 @@
 package main
 
+import "fmt"
+
 func judgeC13(x scnResult, res *MonitorResult) {
 	if scnChain(x.sc.steps) != "lbtc" {
 		return
@@ -42,6 +44,25 @@ func init() {
 		for _, sc := range append(crashPlacements([]string{"outSender", "inReceiver"}), sweepScenarios([]string{"outSender", "inReceiver"})...) {
 			if scnChain(sc.steps) == "lbtc" {
 				all = append(all, sc)
+			}
+		}
+		// the back-end reports a LOWER tip than before (another Electrum server, elementsd still catching up after a
+		// restart) at every point of the honest runs, with and without a restart behind it
+		for _, role := range []string{"outSender", "inReceiver"} {
+			base := baseScript(role, "lbtc")
+			for i := 1; i <= len(base); i++ {
+				for _, k := range []int{1, 3, 70} {
+					for _, withRestart := range []bool{false, true} {
+						steps := append([]string{}, base[:i]...)
+						steps = append(steps, fmt.Sprintf("rewind lbtc %d", k))
+						if withRestart {
+							steps = append(steps, "restart")
+						}
+						steps = append(steps, base[i:]...)
+						steps = append(steps, "restart", "confirm")
+						all = append(all, scn{role: role, steps: steps})
+					}
+				}
 			}
 		}
 		for len(all) < n+700 {
